@@ -713,6 +713,9 @@ func (sys *zzC13XSys) zzObserve(m *zzC13XModel, mode int, when string) {
 						switch {
 						case want == 3 && len(cands) == 1 && !m.bound[cands[0]][k] && m.hole[cur][k]:
 							sreg = zzC13XRFmakHole
+						case (want == 1 || want == 2) && m.trans[cur][k]:
+							// the placeholder variable of a used package's inherited name
+							sreg = zzC13XRTransitive
 						case want == 1 || want == 2:
 							for q := 0; q < zzC13XNP; q++ {
 								if q != cur && m.uses[cur][q] && m.present[q][k] && m.exp[q][k] {
